@@ -181,7 +181,7 @@ func enumTypeRef(node *sourcewalk.EnumNode) *TypeRef {
 	valMap := make(map[string]int32)
 	valMap[prefix+"UNSPECIFIED"] = 0
 	options := node.Schema.Options
-	if len(options) > 0 && options[0].Number == 0 && strings.HasSuffix(options[0].Name, "UNSPECIFIED") {
+	if len(options) > 0 && isExplicitUnspecified(prefix, options[0]) {
 		name := options[0].Name
 		if !strings.HasPrefix(name, prefix) {
 			name = prefix + name
